@@ -258,6 +258,24 @@ func c01Check(c h.EdCase) h.Result {
 	if !bytes.Equal(pk, pk0) || !bytes.Equal(msg, msg0) || !bytes.Equal(sig, sig0) {
 		r.Fail("ed25519.VerifyWithOptions:modified-input", "before: pk=%x msg=%x sig=%x after: %s", pk0, msg0, sig0, in())
 	}
+	// ... nor the option PRESETS, which are package-level objects shared by every
+	// caller (the decisions above were taken through them): still the documented
+	// flag sets
+	for _, p := range []struct {
+		name string
+		got  *ed25519.VerifyOptions
+		want ref.EdFlags
+	}{
+		{"VerifyOptionsDefault", ed25519.VerifyOptionsDefault, ref.EdFlagsDefault},
+		{"VerifyOptionsStdLib", ed25519.VerifyOptionsStdLib, ref.EdFlagsStdLib},
+		{"VerifyOptionsFIPS_186_5", ed25519.VerifyOptionsFIPS_186_5, ref.EdFlagsFIPS},
+		{"VerifyOptionsZIP_215", ed25519.VerifyOptionsZIP_215, ref.EdFlagsZIP215},
+	} {
+		if p.got == nil || (ref.EdFlags{AllowSmallOrderA: p.got.AllowSmallOrderA, AllowSmallOrderR: p.got.AllowSmallOrderR,
+			AllowNonCanonicalA: p.got.AllowNonCanonicalA, AllowNonCanonicalR: p.got.AllowNonCanonicalR, Cofactorless: p.got.CofactorlessVerify}) != p.want {
+			r.Fail("ed25519."+p.name+":modified", "now %+v, documented %+v", p.got, p.want)
+		}
+	}
 
 	// ---- classification / non-trivial rule
 	switch {
